@@ -319,8 +319,8 @@ uint64_t cmb_event_current(void)
 bool cmb_event_cancel(const uint64_t handle)
 {
     cmb_assert_release(event_queue != NULL);
-    cmb_assert_release(cmi_hashheap_count(event_queue) > 0u);
     if (!cmi_hashheap_is_enqueued(event_queue, handle)) {
+        /* Also the case whenever the event queue is empty */
         return false;
     }
 
@@ -497,8 +497,10 @@ void cmi_event_add_waiter(const uint64_t key, struct cmb_process *pp)
 bool cmi_event_remove_waiter(const uint64_t key, const struct cmb_process *pp)
 {
     cmb_assert_release(event_queue != NULL);
-    cmb_assert_release(cmi_hashheap_count(event_queue) > 0u);
-    cmb_assert_release(cmi_hashheap_is_enqueued(event_queue, key));
+    if (!cmi_hashheap_is_enqueued(event_queue, key)) {
+        /* The event has already happened or been cancelled, nobody is waiting for it */
+        return false;
+    }
 
     struct event_peek *tmp = (struct event_peek *)cmi_hashheap_item(event_queue, key);
     struct cmi_slist_head *whead = &(tmp->waiters);
